@@ -260,11 +260,25 @@ def mk_uvint(prop):
 # type constructors, parametric in the element codec
 
 Val = z3.DeclareSort('Val')
-ENC = z3.Function('sub_enc', Val, sym.ByteSeq)
-DEC = z3.Function('sub_dec', sym.ByteSeq, Val)
+# element codecs may depend on the protocol version they are called with (nested collections do)
+ENC_PV = z3.Function('sub_enc', Val, z3.IntSort(), sym.ByteSeq)
+DEC_PV = z3.Function('sub_dec', sym.ByteSeq, z3.IntSort(), Val)
 NORM = z3.Function('sub_norm', Val, Val)
-ENC2 = z3.Function('sub2_enc', Val, sym.ByteSeq)
-DEC2 = z3.Function('sub2_dec', sym.ByteSeq, Val)
+ENC2_PV = z3.Function('sub2_enc', Val, z3.IntSort(), sym.ByteSeq)
+DEC2_PV = z3.Function('sub2_dec', sym.ByteSeq, z3.IntSort(), Val)
+
+
+class _AnyPv(object):
+    """enc(v) for 'the encoding at whatever version': used only for size assumptions quantified over the 8 versions."""
+
+    def __init__(self, f):
+        self.f = f
+
+    def __call__(self, vt):
+        return [self.f(vt, z3.IntVal(p)) for p in PVS]
+
+
+ENC, DEC, ENC2, DEC2 = ENC_PV, DEC_PV, ENC2_PV, DEC2_PV
 _sub_classes = {}
 
 
@@ -281,8 +295,9 @@ def abstract_subtype(name, enc, dec, empty_ok, fixed_size=None):
         ctx = engine.cur()
         if not isinstance(val, SU):
             raise PyExc(TypeError('abstract codec applied to a non-value'))
-        b = enc(val.t)
-        facts = [dec(b) == NORM(val.t)]
+        pvt = _pv_class(protocol_version)
+        b = enc(val.t, pvt)
+        facts = [dec(b, pvt) == NORM(val.t), z3.Length(b) <= 65535]
         if not empty_ok:
             facts.append(z3.Length(b) > 0)
         if fixed_size is not None:
@@ -291,7 +306,7 @@ def abstract_subtype(name, enc, dec, empty_ok, fixed_size=None):
         return SBytes(b)
 
     def deserialize(byts, protocol_version):
-        return SU(dec(sym.lift(byts).t))
+        return SU(dec(sym.lift(byts).t, _pv_class(protocol_version)))
 
     def serial_size(cls):
         return fixed_size
@@ -301,6 +316,12 @@ def abstract_subtype(name, enc, dec, empty_ok, fixed_size=None):
         'serial_size': classmethod(serial_size)})
     _sub_classes[key] = cls
     return cls
+
+
+def _pv_class(pv):
+    """What an element codec may depend on: the protocol version up to 'v3 or later' (collection length widths)."""
+    t = sym.as_int_term(pv)
+    return z3.If(t >= 3, z3.IntVal(3), t)
 
 
 def norm_of(v):
@@ -324,3 +345,187 @@ def val_eq(a, b):
     if not isinstance(a, SU) or not isinstance(b, SU):
         return False
     return a == b
+
+
+# ---------------------------------------------------------------------------
+# constructor harnesses (parametric in the element codec; collection sizes unrolled up to MAXK)
+
+MAXK = 3
+KF_NULL = 'KF-C01-null-element-of-empty-ok-subtype'
+
+
+def _assume_fits(vc, vals, enc=ENC):
+    """(element encodings fit the 16-bit length field of protocol v1/v2: stated in the abstract codec itself)"""
+    return None
+
+
+def _expect(e, empty_ok):
+    """(expected decoded value, is_known_finding_class)"""
+    if e is None:
+        return None, bool(empty_ok)
+    return SU(NORM(e.t)), False
+
+
+def _check_elems(vc, back, items, empty_ok, tag='element'):
+    for i, e in enumerate(items):
+        exp, kf = _expect(e, empty_ok)
+        name = ('KF:%s/%s-null-survives' % (KF_NULL, tag)) if kf else ('post/%s-%d-roundtrip' % (tag, i))
+        vc.check(name, val_eq(back[i], exp))
+
+
+def mk_listlike(prop, which, empty_ok):
+    hname = '%s<%s>' % (which, 'empty_ok-subtype' if empty_ok else 'subtype')
+
+    @harness(prop, hname, functions=[CT + '_SimpleParameterizedType.serialize_safe', CT + '_SimpleParameterizedType.deserialize_safe',
+                                     CT + '_CassandraType.to_binary', CT + '_CassandraType.from_binary'],
+             native='contracts.native.codec:replay_collection')
+    def h(vc):
+        from cassandra import cqltypes
+        Sub = abstract_subtype('VSubE' if empty_ok else 'VSub', ENC, DEC, empty_ok)
+        base = getattr(cqltypes, which)
+        T = type('Verif' + which, (base,), {'subtypes': (Sub,), 'adapter': list})
+        k = vc.choice('size', list(range(MAXK + 1)))
+        items = elements(vc, k)
+        _assume_fits(vc, items)
+        pv = pv_any(vc)
+        kind, b = vc.call_catch(T.serialize, list(items), pv)
+        vc.check('post/serialize-does-not-raise', kind == 'ok')
+        if kind != 'ok':
+            return
+        b = sym.lift(b)
+        vc.check('post/encoding-nonempty', b.length() > 0)
+        back = vc.call(T.deserialize, b, pv)
+        vc.check('post/count', isinstance(back, list) and len(back) == k)
+        if isinstance(back, list) and len(back) == k:
+            _check_elems(vc, back, items, empty_ok)
+        if k == 2 and not empty_ok:
+            vc.must_fail('selfcheck/elements-swapped', val_eq(back[0], _expect(items[1], empty_ok)[0]))
+    h.__doc__ = ('for every element codec with dec(enc(v)) == norm(v): %s.deserialize(%s.serialize(items, pv), pv) == [norm(e) or None ...] '
+                 'for all protocol versions (both length widths), None elements and the empty collection; sizes 0..%d unrolled' % (which, which, MAXK))
+    return h
+
+
+def mk_map(prop, empty_ok):
+    @harness(prop, 'MapType<%s>' % ('empty_ok-values' if empty_ok else 'subtypes'),
+             functions=[CT + 'MapType.serialize_safe', CT + 'MapType.deserialize_safe', 'cassandra.util.OrderedMapSerializedKey._insert_unchecked'],
+             native='contracts.native.codec:replay_collection')
+    def h(vc):
+        from cassandra import cqltypes
+        KS = abstract_subtype('VKey', ENC2, DEC2, False)
+        VS = abstract_subtype('VSubE' if empty_ok else 'VSub', ENC, DEC, empty_ok)
+        T = type('VerifMap', (cqltypes.MapType,), {'subtypes': (KS, VS)})
+        k = vc.choice('size', list(range(MAXK)))
+        keys = [vc.opaque('k%d' % i, 'Val') for i in range(k)]
+        vals = elements(vc, k, 'v')
+        _assume_fits(vc, keys, ENC2)
+        _assume_fits(vc, vals)
+        pv = pv_any(vc)
+        m = {}
+        for kk, vv in zip(keys, vals):
+            m[kk] = vv
+        kind, b = vc.call_catch(T.serialize, m, pv)
+        vc.check('post/serialize-does-not-raise', kind == 'ok')
+        if kind != 'ok':
+            return
+        b = sym.lift(b)
+        vc.check('post/encoding-nonempty', b.length() > 0)
+        back = vc.call(T.deserialize, b, pv)
+        its = back.attrs['_items'] if isinstance(back, SObj) else None
+        vc.check('post/count', its is not None and len(its) == k)
+        if its is not None and len(its) == k:
+            for i in range(k):
+                vc.check('post/key-%d-roundtrip' % i, val_eq(its[i][0], SU(NORM(keys[i].t))))
+            _check_elems(vc, [x[1] for x in its], vals, empty_ok, 'value')
+    h.__doc__ = 'map<K,V> round trip (insertion order kept in an OrderedMapSerializedKey), both length widths, None values, sizes 0..%d unrolled' % (MAXK - 1)
+    return h
+
+
+def mk_tuple(prop, udt):
+    @harness(prop, 'UserType' if udt else 'TupleType',
+             functions=[CT + ('UserType' if udt else 'TupleType') + '.serialize_safe', CT + 'TupleType.deserialize_safe'] +
+             ([CT + 'UserType.deserialize_safe'] if udt else []), native='contracts.native.codec:replay_collection')
+    def h(vc):
+        from cassandra import cqltypes
+        Sub = abstract_subtype('VSub', ENC, DEC, False)
+        arity = vc.choice('arity', [1, 2, 3])
+        if udt:
+            T = cqltypes.UserType.make_udt_class('verif_ks', 'verif_udt%d' % arity, tuple('f%d' % i for i in range(arity)), tuple([Sub] * arity))
+            n = arity
+        else:
+            T = type('VerifTuple', (cqltypes.TupleType,), {'subtypes': tuple([Sub] * arity)})
+            n = vc.choice('given', list(range(arity + 1)))
+        items = elements(vc, n)
+        _assume_fits(vc, items)
+        pv = pv_any(vc)
+        kind, b = vc.call_catch(T.serialize, tuple(items), pv)
+        vc.check('post/serialize-does-not-raise', kind == 'ok')
+        if kind != 'ok':
+            return
+        back = vc.call(T.deserialize, b, pv)
+        if isinstance(back, SObj):
+            back = [back.attrs[f] for f in back.cls._fields]
+        vc.check('post/arity', len(back) == arity)
+        if len(back) == arity:
+            padded = list(items) + [None] * (arity - n)
+            _check_elems(vc, list(back), padded, False, 'field')
+    h.__doc__ = '%s round trip: every field incl. None fields (length -1) and trailing missing fields; arities 1..3 unrolled' % ('UDT' if udt else 'tuple')
+    return h
+
+
+def mk_vector(prop, fixed):
+    @harness(prop, 'VectorType<%s>' % ('fixed-size-subtype' if fixed else 'variable-size-subtype'),
+             functions=[CT + 'VectorType.serialize', CT + 'VectorType.deserialize', M + 'uvint_pack', M + 'uvint_unpack'])
+    def h(vc):
+        from cassandra import cqltypes
+        Sub = abstract_subtype('VSubF4' if fixed else 'VSubV', ENC, DEC, True, 4 if fixed else None)
+        k = vc.choice('dimension', [1, 2, 3] if not fixed else [0, 1, 2, 3])
+        T = type('VerifVector', (cqltypes.VectorType,), {'vector_size': k, 'subtype': Sub})
+        items = [vc.opaque('e%d' % i, 'Val') for i in range(k)]
+        pv = pv_any(vc)
+        # callee contracts of uvint_pack / uvint_unpack (verified on their bodies in the `uvint` harness):
+        #   uvint_unpack(uvint_pack(v) ++ tail) == (v, len(uvint_pack(v))),  len(uvint_pack(v)) >= 1
+        UV = z3.Function('uvint_enc', z3.IntSort(), sym.ByteSeq)
+
+        def uvint_pack_contract(v):
+            vt = sym.as_int_term(v)
+            vc.check('pre@uvint_pack/non-negative-size', v >= 0)
+            b = UV(vt)
+            vc.ctx.assume(z3.Length(b) >= 1, silent=True)
+            return SBytes(b)
+
+        def uvint_unpack_contract(b):
+            segs = sym._segments(sym.lift(b).t)
+            if not segs or segs[0][0].decl().name() != 'uvint_enc':
+                from pyvc.sym import Unsupported
+                raise Unsupported('uvint_unpack contract applied to bytes that do not start with a uvint encoding')
+            return (SInt(segs[0][0].arg(0)), SInt(z3.Length(segs[0][0])))
+        vc.stub(M + 'uvint_pack', uvint_pack_contract)
+        vc.stub(M + 'uvint_unpack', uvint_unpack_contract)
+        kind, b = vc.call_catch(T.serialize, list(items), pv)
+        vc.check('post/serialize-does-not-raise', kind == 'ok')
+        if kind != 'ok':
+            return
+        back = vc.call(T.deserialize, b, pv)
+        vc.check('post/dimension', isinstance(back, list) and len(back) == k)
+        if isinstance(back, list) and len(back) == k:
+            for i in range(k):
+                vc.check('post/element-%d-roundtrip' % i, val_eq(back[i], SU(NORM(items[i].t))))
+    h.__doc__ = 'vector round trip for %s element codecs; dimensions up to 3 unrolled%s' % (
+        'fixed-width' if fixed else 'variable-width', '' if fixed else '; uvint_pack/uvint_unpack by their contract (modular)')
+    return h
+
+
+def mk_uuid(prop, cname):
+    @harness(prop, cname, functions=[CT + cname + '.serialize', CT + cname + '.deserialize'])
+    def h(vc):
+        import uuid
+        b16 = vc.bytes('uuid_bytes')
+        vc.assume(b16.length() == 16)
+        pv = pv_any(vc)
+        u = vc.obj(uuid.UUID, bytes=b16)
+        b = vc.call(CT + cname + '.serialize', u, pv)
+        vc.check('post/is-the-16-bytes', b == b16)
+        back = vc.call(CT + cname + '.deserialize', b, pv)
+        vc.check('post/roundtrip', isinstance(back, SObj) and back.attrs['bytes'] == b16)
+    h.__doc__ = 'ensures %s encodes a UUID as its 16 bytes and decodes back to the same UUID (E-UUID: UUID(bytes=b).bytes == b)' % cname
+    return h
